@@ -2085,6 +2085,25 @@ class SX:
             for case in s.cases:
                 nxt = []
                 # `case C():` / `case C() | D():` on a named subject is isinstance(subject, (C, D)): decided like an if-test
+                pat = case.pattern
+                if isinstance(pat, ast.MatchSequence) and len(pat.patterns) == 2 and isinstance(subj, Seq) and case.guard is None \
+                        and sum(isinstance(q, ast.MatchStar) and q.name in (None, '_') for q in pat.patterns) == 1 \
+                        and sum(isinstance(q, ast.MatchAs) and q.pattern is None and q.name is not None for q in pat.patterns) == 1:
+                    # `case [*_, last]:` / `case [first, *_]:` on an abstract sequence: it matches when the sequence is not empty and
+                    # binds its last / first element
+                    last = isinstance(pat.patterns[0], ast.MatchStar)
+                    cap = pat.patterns[1 if last else 0].name
+                    for sc in pending:
+                        g_ = G('truth', (subj.path,))
+                        a_, b_ = sc.with_guard(g_), sc.with_guard(g_.negate())
+                        if a_ is not None:
+                            a_ = a_.copy()
+                            a_.env[cap] = self.subscript(subj, N(Rat.const(-1 if last else 0), 'int'), a_, frame, s.subject)
+                            res.extend(self.block(case.body, [a_], frame))
+                        if b_ is not None:
+                            nxt.append(b_)
+                    pending = nxt
+                    continue
                 test = self._pattern_test(s.subject, case.pattern)
                 if test is not None:
                     test = ast.copy_location(test, case.pattern)
@@ -2132,12 +2151,18 @@ class SX:
             if isinstance(q, ast.MatchSingleton) and isinstance(sub, (ast.Name, ast.Attribute)):
                 # `case None:` / `case True:` compare by identity
                 return ast.Compare(left=sub, ops=[ast.Is()], comparators=[ast.Constant(value=q.value)])
+            if isinstance(q, ast.MatchValue) and isinstance(q.value, ast.Attribute) and isinstance(sub, (ast.Name, ast.Attribute)):
+                # `case module.CONSTANT:` is `subject == module.CONSTANT` (subject on the left)
+                return ast.Compare(left=sub, ops=[ast.Eq()], comparators=[q.value])
             classes = SX._class_patterns(q)
             if classes is None or not isinstance(sub, (ast.Name, ast.Attribute)):
                 return None
             return ast.Call(func=ast.Name('isinstance', ast.Load()),
                             args=[sub, classes[0] if len(classes) == 1 else ast.Tuple(elts=classes, ctx=ast.Load())], keywords=[])
-        if isinstance(subject, ast.Name):
+        if isinstance(subject, ast.Name) or (isinstance(subject, ast.Attribute) and not any(
+                isinstance(x, ast.Call) for x in ast.walk(subject))):
+            if isinstance(subject, ast.Attribute) and isinstance(p, ast.MatchAs) and p.pattern is None and p.name is None:
+                return ast.Constant(value=True)
             t = one(subject, p)
             return t if t is not None and not isinstance(t, ast.Constant) else None
         if isinstance(subject, ast.Tuple):
@@ -2319,6 +2344,9 @@ class SX:
                 return [(o.state, o.value) if o.kind == 'return' else ((o.state, NoneV()) if o.kind == 'fall' else o)
                         for o in outs]
             return [(st, Fv(f'bound:{attr}'))]   # bound method; resolved in call()
+        if isinstance(obj, Fv) and obj.recv is None and obj.name not in self.model.functions and attr in self.model.classes \
+                and not obj.name.startswith(('bound:', 'operator.', 'interp')):
+            return [(st, Cv(attr))]           # `module.ClassName` through an imported module object
         if isinstance(obj, Cv):
             if attr == '__name__':
                 return [(st, Sv(obj.name))]
